@@ -1183,6 +1183,41 @@ def gen_foreach_program(seed):
     return p, spell_program(p)
 
 
+def gen_actionloop_program(seed):
+    """C05: loops whose body starts and ends with runs of actions (1..6 each, non-idempotent, hooks in between), so that the
+    back edge and the first consuming transition both carry action lists - what the fall-through short-circuit merges, subject
+    to its thresholds (number of equivalent transitions, action penalty)."""
+    r = random.Random(seed)
+    outs = [{'name': 'n', 'type': 'int', 'signed': None, 'width': None, 'default': r.choice([None, 3])},
+            {'name': 'm', 'type': 'int', 'signed': None, 'width': None, 'default': r.choice([None, 5])}]
+    hooks = ['ha', 'hb', 'hc', 'hd']
+
+    def acts(k):
+        out = []
+        for _ in range(k):
+            q = r.random()
+            if q < 0.4:
+                out.append({'t': 'hook', 'n': r.choice(hooks)})
+            elif q < 0.7:
+                out.append({'t': 'set', 'var': 'n', 'e': {'k': 'bin', 'op': '+', 'l': {'k': 'var', 'name': 'n'}, 'r': {'k': 'num', 'v': r.randint(1, 3)}}})
+            else:
+                out.append({'t': 'set', 'var': 'm', 'e': {'k': 'bin', 'op': '+', 'l': {'k': 'bin', 'op': '*', 'l': {'k': 'var', 'name': 'm'}, 'r': {'k': 'num', 'v': 2}},
+                                                          'r': {'k': 'var', 'name': 'n'}}})
+        return out
+    lit = lambda: {'t': 'match', 'm': {'k': 'str', 'bytes': [r.choice(b'ab') for _ in range(r.randint(1, 2))]}}
+    body = acts(r.randint(1, 6)) + [lit()]
+    if r.random() < 0.5:
+        body += acts(r.randint(1, 3)) + [lit()]
+    body += acts(r.randint(1, 6))
+    if r.random() < 0.6:
+        body.append({'t': 'if', 'br': [{'c': {'k': 'bin', 'op': '>=', 'l': {'k': 'var', 'name': 'n'}, 'r': {'k': 'num', 'v': r.choice([9, 14, 40])}}, 'b': [{'t': 'break', 'loop': None}]}], 'els': None})
+    prog = [{'t': 'loop', 'name': None, 'b': body}] + acts(r.randint(0, 2)) + [{'t': 'match', 'm': {'k': 'str', 'bytes': [88]}}]
+    if r.random() < 0.4:
+        prog.insert(0, {'t': 'match', 'm': {'k': 'str', 'bytes': [120]}})
+    p = _mk(outs, hooks, [], [], prog)
+    return p, spell_program(p)
+
+
 def gen_lifecycle_program(seed):
     """string life-cycle family (C03/C12): one input byte selects one operation on a string with a default value and on one
     without - delete, constant assignment, character append, append from the input, reads of length and indexed bytes - in a loop,
@@ -1302,8 +1337,12 @@ def gen_case_program(seed, yield_mode=False):
                     ps.append({'k': 're', 'r': g.regex(1), 'bin': False})
                 elif q < 0.8:
                     ps.append({'k': 'str', 'bytes': [r.choice(A) for _ in range(r.randint(1, 3))]})
-                else:
+                elif r.random() < 0.5:
                     ps.append({'k': 'stri', 'bytes': [r.choice(A) for _ in range(r.randint(1, 2))]})
+                else:
+                    # case folding boundaries: the bytes around the ASCII letters and Latin-1 "letters" (only A-Z / a-z fold)
+                    ps.append({'k': 'stri', 'bytes': [r.choice([0x40, 0x41, 0x5a, 0x5b, 0x5f, 0x60, 0x61, 0x7a, 0x7b, 0xe9, 0xc9, 0xdf, 0xff, 0xaa, 0xb5, 0xd7, 0xf7])
+                                                     for _ in range(r.randint(1, 2))]})
             else:
                 ps.append({'k': 'str', 'bytes': [firsts[i % len(firsts)]] + [r.choice(A) for _ in range(r.randint(0, 2))]})
         marker = [{'t': 'yield', 'code': 'Y%d' % i}] if yield_mode else \
@@ -1409,9 +1448,23 @@ def gen_end_program(seed):
     def lit(n=None):
         return {'t': 'match', 'm': {'k': 'str', 'bytes': [r.choice(A) for _ in range(n or r.randint(1, 2))]}}
     mark = lambda v: {'t': 'set', 'var': 'seen', 'e': {'k': 'num', 'v': v}}
-    shape = r.randrange(11)
+    shape = r.randrange(14)
     inv = lambda bs: {'k': 're', 'r': {'k': 'set', 'inv': True, 'items': [['ch', b] for b in bs]}, 'bin': False}
-    if shape == 8:
+    if shape >= 11:
+        # the program may end before an optional trailer that starts with a wait: end() right after the mandatory part finds an
+        # accepting state whose end-of-input move is the wait's consuming skip transition
+        x = r.choice(A)
+        pat = r.choice([{'k': 'str', 'bytes': [x, r.choice(A)]}, {'k': 're', 'r': {'k': 'seq', 'c': [{'k': 'ch', 'c': x}, {'k': 'any'}, {'k': 'ch', 'c': r.choice(A)}]}, 'bin': False},
+                        {'k': 'str', 'bytes': [x]}])
+        w = {'t': 'wait', 'm': pat}
+        inner = [w] if shape == 11 else ([{'t': 'foreach', 'b': [w], 'acts': [{'t': 'hook', 'n': 'h'}]}] if shape == 12 else [w, mark(6), lit(1)])
+        body = [lit(), {'t': 'opt', 'b': inner}]
+        p = _mk(outs, hooks, fcodes, [], body)
+        # whether an optional whose first statement is a wait is entered by any byte (nmfu) or only by one that starts the pattern
+        # is not settled by the reference: these programs are bound at the C level only (machine vs emitted _end / _feed)
+        p['c_only'] = True
+        return p, spell_program(p)
+    elif shape == 8:
         # a case whose decider has an inverted-set arm and literal arms covering (some of) the excluded bytes: end-of-input in
         # the decider state matches no data pattern
         ex = r.sample(A, 2)
@@ -1606,7 +1659,7 @@ def gen_literal_program(seed):
     return p, spell_program(p)
 
 
-def gen_expr_program(seed, wide=False):
+def gen_expr_program(seed, wide=False, expr=None):
     """C14: one-statement uses of a random well-typed expression tree in assignment, character append, if-condition and
     conditional action positions; operands are loaded from input bytes so that the explorers vary them."""
     r = random.Random(seed)
@@ -1636,7 +1689,7 @@ def gen_expr_program(seed, wide=False):
                 return {'k': 'num', 'v': r.choice([2147483647, 2147483648, 4294967295, 4294967296, 3000000000, 1000000000000, 65537, 16777216])}
             return {'k': 'num', 'v': r.choice([0, 1, 2, 3, 5, 7, 8, 10, 31, 32, 100, 127, 128, 255, 256, 1000, 32767, 65536])}
         if k < 0.6:
-            return {'k': 'chr', 'c': r.choice(b'a0Z ')}
+            return {'k': 'chr', 'c': r.choice(list(b'a0Z ~!') + [8, 9, 10, 13, 39, 92])}
         if k < 0.7 and allow_last:
             return {'k': 'last'}
         if k < 0.8:
@@ -1688,6 +1741,9 @@ def gen_expr_program(seed, wide=False):
                                                                {'k': 'bin', 'op': '*', 'l': {'k': 'last'}, 'r': {'k': 'num', 'v': r.choice([2, 129, 257])}}])}]
     use = r.randrange(4)
     e = arith(r.randint(1, 3))
+    if expr is not None:
+        # a given expression (constant tables of C14): used in an assignment, operand v0 is `names[0]`
+        use, e = 0, expr
     body = list(load) + [{'t': 'match', 'm': {'k': 're', 'r': {'k': 'any'}, 'bin': False}}]
     if use == 0:
         body += [{'t': 'set', 'var': 'res', 'e': e}]
